@@ -39,6 +39,12 @@ static std::string call_B(int kind)
         case 5: { DocumentBuilder b(doc); rc = parse_XTA("1 +\n (2 * )", &b, true, S_EXPRESSION, "/e"); break; }
         case 6: rc = parse_XTA("int i;\nprocess P() { state A, B, C; init A; trans -> C { guard i < 3; }, A -> B { }; }\nsystem P;", &doc, true); break;   // a trans list that starts with the shorthand form (no previous edge to take the source from)
         case 7: rc = parse_XTA("const int k1 = 7; int big = 12345; double dd = 2.5;\nprocess P() { state A; init A; }\nsystem P;", &doc, true); break;              // plain literals
+        // query parses with nothing else before them in the call (a document without declarations): malformed on line 1, malformed on line 2, well-formed
+        case 8: { TigaPropertyBuilder pb(doc); rc = parseProperty("A[] 1 < ", &pb, "/q"); break; }
+        case 9: { TigaPropertyBuilder pb(doc); rc = parseProperty("E<> true\nA[] (1 + ", &pb, "/q"); break; }
+        case 10: { TigaPropertyBuilder pb(doc); rc = parseProperty("A[] 1 < 2 /* ok */", &pb, "/q"); break; }
+        // an old-syntax XML model whose first text block draws a diagnostic
+        case 11: { MModel m = small_model(false); m.gdecl = "int g; clock x; chan c; int x2[3], y2; const k 2 +;"; XmlDoc d = render_xml(m); rc = parse_xml(d, &doc, false); break; }
         }
     } catch (std::exception& e) { threw = true; }
     return record_doc(doc, threw, rc);
@@ -62,13 +68,18 @@ static void call_A(int kind)
         case 10: { DocumentBuilder b(doc); parse_XTA("int big = 99999999999999999999; int other = 3;", &b, true, S_DECLARATION, "/d"); break; }   // a literal beyond 2^63
         case 11: { DocumentBuilder b(doc); parse_XTA("double huge = 1e999; double tiny = 1e-999;", &b, true, S_DECLARATION, "/d"); break; }        // floating literals outside the range of double
         case 12: parse_XTA("int i; process P() { state A, B, C; init A; trans B -> C { }, -> A { }; } system P;", &doc, true); break;         // a complete edge followed by the shorthand form
+        case 13: { TigaPropertyBuilder pb(doc); parseProperty("E<> (1 + ", &pb, "/q"); break; }                                               // a malformed one-line query and nothing else
+        case 14: { TigaPropertyBuilder pb(doc); parseProperty("E<> true\nE<> (2 * ", &pb, "/q"); break; }                                     // ... with the error on the second line
+        case 15: { XmlDoc d; d.el("nta").el("extension").leaf("declaration", "int q;").end().end(); parse_xml(d, &doc); break; }               // XML: a known section inside an element the reader does not know (the reader gives up with an exception)
+        case 16: { XmlDoc d; d.el("nta").leaf("declaration", "int q;").el("template").leaf("name", "T").empty("location", {}).end().end(); parse_xml(d, &doc); break; }   // XML: a location without id
+        case 17: { XmlDoc d; d.el("nta").leaf("declaration", "int q;").el("template").leaf("name", "T"); parse_xml(d, &doc); break; }          // XML: the document ends inside a template
         }
     } catch (...) {}
 }
 
-extern "C" void harness_history()  /* vf: bounds=8_observed_calls_x_13_intervening_calls(one-step_histories) reach=end */
+extern "C" void harness_history()  /* vf: bounds=12_observed_calls_x_18_intervening_calls(one-step_histories) reach=end */
 {
-    int b = vf_pick("!observed", 8), a = vf_pick("!intervening", 13);
+    int b = vf_pick("!observed", 12), a = vf_pick("!intervening", 18);
     std::string first = call_B(b);
     call_A(a);
     std::string again = call_B(b);
@@ -76,9 +87,9 @@ extern "C" void harness_history()  /* vf: bounds=8_observed_calls_x_13_interveni
     vf_assert(first == again, "result-independent-of-earlier-parse");
     vf_reach("end");
 }
-extern "C" void harness_history2()  /* vf: tier=thorough bounds=8_observed_calls_x_13x13_two-step_histories reach=end */
+extern "C" void harness_history2()  /* vf: tier=thorough bounds=12_observed_calls_x_18x18_two-step_histories reach=end */
 {
-    int b = vf_pick("!observed", 8), a1 = vf_pick("!intervening1", 13), a2 = vf_pick("!intervening2", 13);
+    int b = vf_pick("!observed", 12), a1 = vf_pick("!intervening1", 18), a2 = vf_pick("!intervening2", 18);
     std::string first = call_B(b);
     call_A(a1); call_A(a2);
     std::string again = call_B(b);
